@@ -320,6 +320,9 @@ func (f *Frame) loopHead(li *loopInfo, pc string, st *State, order []*ssa.BasicB
 	}()
 	// 2. invariants on entry
 	tag := fmt.Sprintf("loop%d", li.index)
+	for _, hnt := range f.conHints(fmt.Sprintf("loop#%d.entry", li.index)) {
+		f.applyHint(hnt, pc, st, tag+".entry")
+	}
 	for i, inv := range li.spec.Invariants {
 		env := f.env(st)
 		t := env.evalBool(inv.E)
